@@ -42,6 +42,7 @@ type Schema struct {
 	FileExt  []F      // extensions declared at file level: Card carries "ext:<Extendee>"
 	Dep      *Schema  // a second .proto file, imported by this one, with its own Go package (dep/v1;depv1);
 	// its types are referenced as "dep:<Message>" / "depenum:<Enum>"; only the importing file is generated
+	GenDep bool // … unless GenDep is set: then ONE request asks the generator for both files (protoc a.proto b.proto)
 }
 
 // DepFileName is the name of the imported file of a schema with a Dep.
